@@ -1153,6 +1153,15 @@ def replay_scenario_step(inputs, clause):
     sim = run("require always ego.position.y < 2\n", steps=4)
     if sim is not None:
         return "`require always ego.position.y < 2` (y = time step) did not reject a simulation of 4 steps"
+    # the temporal requirements are checked before the time limit: a requirement falsified in the very step in which
+    # the time limit stops the scenario still rejects the simulation
+    for n in (1, 2, 3):
+        sim = run(f"terminate after {n} steps\nrequire always ego.position.y < {n}\n", steps=6)
+        if sim is not None:
+            return f"`terminate after {n} steps` with `require always ego.position.y < {n}` (y = time step): the requirement is false at step {n}, where the time limit stops the scenario, but the simulation was not rejected (ended at step {sim.currentTime})"
+        sim = run(f"terminate after {n} steps\nrequire always ego.position.y < {n + 1}\n", steps=6)
+        if sim is None or sim.currentTime != n:
+            return f"`terminate after {n} steps` with `require always ego.position.y < {n + 1}` (never violated within the limit): {'rejected' if sim is None else 'ended at step %d' % sim.currentTime}"
     return None
 
 
@@ -1172,6 +1181,28 @@ def replay_monitors(inputs, clause):
     res = sim.result
     if sim.currentTime != 1 or res.terminationType.name != "terminatedByMonitor" or "terminate simulation" not in str(res.terminationReason):
         return f"monitors executing `terminate` and `terminate simulation` in step 1: ended at step {sim.currentTime}, type {res.terminationType.name}, reason {res.terminationReason!s}; documented: terminate simulation is reported"
+    # every monitor runs once per step, those of running sub-scenarios included, even in the step in which another
+    # monitor ends the simulation
+    import builtins
+
+    builtins._pyvc_monitor_log = []
+    src = (
+        "import builtins\n"
+        "monitor TopM():\n    wait\n    terminate simulation\n"
+        "monitor SubM():\n    while True:\n        builtins._pyvc_monitor_log.append(simulation().currentTime)\n        wait\n"
+        "behavior B():\n    while True:\n        take 1\n"
+        "scenario Sub():\n    setup:\n        require monitor SubM()\n    compose:\n        while True:\n            wait\n"
+        "scenario Main():\n    setup:\n        ego = new Object with behavior B\n        require monitor TopM()\n    compose:\n        do Sub()\n"
+    )
+    try:
+        sc = scenic.scenarioFromString(src, mode2D=True)
+        scene, _ = sc.generate()
+        sim = DummySimulator().simulate(scene, maxSteps=5)
+        seen = list(builtins._pyvc_monitor_log)
+    finally:
+        del builtins._pyvc_monitor_log
+    if sim.currentTime != 1 or seen != [0, 1]:
+        return f"a monitor of the top-level scenario executes `terminate simulation` in step 1 while a sub-scenario with its own monitor is running: the sub-scenario's monitor ran in steps {seen} (every monitor runs once in every step: [0, 1]); simulation ended at step {sim.currentTime}"
     return None
 
 
